@@ -47,7 +47,9 @@ def _fp(o, memo):
     memo[oid] = len(memo)
     d = getattr(o, "__dict__", None)
     if d is not None:
-        return ("obj", type(o).__module__ + "." + type(o).__qualname__, memo[oid]) + tuple((k, _fp(v, memo)) for k, v in sorted(d.items()))
+        # per-instance memo attributes (_cached_*) are hidden cache state like the lru caches: see memo_state()
+        return ("obj", type(o).__module__ + "." + type(o).__qualname__, memo[oid]) + tuple(
+            (k, _fp(v, memo)) for k, v in sorted(d.items()) if not k.startswith("_cached_"))
     return ("repr", repr(o))
 
 
@@ -95,3 +97,15 @@ def diff(a, b, path="", out=None, limit=12):
         else:
             diff(x, y, path + "/" + label, out, limit)
     return out
+
+
+def memo_state(objs):
+    """Which per-instance memo attributes (_cached_*) are filled, for a dict name -> object."""
+    from .ast import walk
+    out = []
+    for k in sorted(objs):
+        for o in walk(objs[k]).values():
+            for a in sorted(getattr(o, "__dict__", {})):
+                if a.startswith("_cached_"):
+                    out.append((k, repr(o.id), a))
+    return tuple(out)
